@@ -1,4 +1,124 @@
 package main
 
+// F3: for each sqlite table, the columns written by INSERT (creator_plan.go), by UPDATE
+// (updater_stmts.go) and the columns consumed by the reader of that table (reader_<t>.go): string
+// literals handed to stmt.GetText/GetInt64/GetBytes/GetLen, fieldTo*/timeFromField helpers and
+// fieldToCheck; a call of fieldToState counts as reading the three state columns.
+
+import (
+	"fmt"
+	"go/ast"
+	"go/token"
+	"regexp"
+	"sort"
+	"strconv"
+	"strings"
+)
+
+var reInsert = regexp.MustCompile(`(?is)INSERT\s+INTO\s+(\w+)\s*\(([^)]*)\)`)
+var reUpdate = regexp.MustCompile(`(?is)UPDATE\s+(\w+)\s+SET\s+(.*?)\s+WHERE`)
+
+func constStrings(rel string) []string {
+	_, f := parseFile(rel)
+	var out []string
+	if f == nil {
+		return out
+	}
+	ast.Inspect(f, func(n ast.Node) bool {
+		if bl, ok := n.(*ast.BasicLit); ok && bl.Kind == token.STRING {
+			if s, err := strconv.Unquote(bl.Value); err == nil {
+				out = append(out, s)
+			}
+		}
+		return true
+	})
+	return out
+}
+
+func cols(s string) []string {
+	var out []string
+	for _, c := range strings.Split(s, ",") {
+		c = strings.TrimSpace(c)
+		if i := strings.Index(c, "="); i >= 0 {
+			c = strings.TrimSpace(c[:i])
+		}
+		if c != "" {
+			out = append(out, c)
+		}
+	}
+	sort.Strings(out)
+	return out
+}
+
+func readCols(rel string) []string {
+	_, f := parseFile(rel)
+	set := map[string]bool{}
+	if f == nil {
+		return nil
+	}
+	ast.Inspect(f, func(n ast.Node) bool {
+		ce, ok := n.(*ast.CallExpr)
+		if !ok {
+			return true
+		}
+		name := ""
+		switch fn := ce.Fun.(type) {
+		case *ast.SelectorExpr:
+			name = fn.Sel.Name
+		case *ast.Ident:
+			name = fn.Name
+		}
+		switch {
+		case name == "fieldToState":
+			set["state_status"], set["state_start"], set["state_end"] = true, true, true
+		case name == "GetText" || name == "GetInt64" || name == "GetBytes" || name == "GetLen" || name == "GetFloat" || strings.HasPrefix(name, "fieldTo") || name == "timeFromField":
+			for _, a := range ce.Args {
+				if bl, ok := a.(*ast.BasicLit); ok && bl.Kind == token.STRING {
+					s, _ := strconv.Unquote(bl.Value)
+					set[s] = true
+				}
+			}
+		}
+		return true
+	})
+	var out []string
+	for k := range set {
+		out = append(out, k)
+	}
+	sort.Strings(out)
+	return out
+}
+
+func f3() {
+	ins := map[string][]string{}
+	for _, s := range constStrings("workflow/storage/sqlite/creator_plan.go") {
+		if m := reInsert.FindStringSubmatch(s); m != nil {
+			ins[strings.ToLower(m[1])] = cols(m[2])
+		}
+	}
+	upd := map[string][]string{}
+	for _, s := range constStrings("workflow/storage/sqlite/updater_stmts.go") {
+		if m := reUpdate.FindStringSubmatch(s); m != nil {
+			upd[strings.ToLower(m[1])] = cols(m[2])
+		}
+	}
+	readers := map[string]string{"plans": "reader_plan.go", "blocks": "reader_blocks.go", "checks": "reader_checks.go", "sequences": "reader_sequences.go", "actions": "reader_actions.go"}
+	var b strings.Builder
+	b.WriteString("namespace Coercion.Generated.F3\n\n")
+	b.WriteString("/-- (table, columns written by INSERT, columns written by UPDATE, columns consumed by the reader) -/\n")
+	b.WriteString("def tables : List (String × List String × List String × List String) := [\n")
+	names := []string{"plans", "blocks", "checks", "sequences", "actions"}
+	for i, t := range names {
+		rd := readCols("workflow/storage/sqlite/" + readers[t])
+		fmt.Fprintf(&b, "  (%s, %s, %s, %s)", leanStr(t), leanStrList(ins[t]), leanStrList(upd[t]), leanStrList(rd))
+		if i < len(names)-1 {
+			b.WriteString(",")
+		}
+		b.WriteString("\n")
+	}
+	b.WriteString("]\n\nend Coercion.Generated.F3\n")
+	write("F3.lean", b.String())
+}
+
 // further fact families are registered here as they are built
-func extra() {}
+func extra() { f3() }
